@@ -5,7 +5,7 @@
    call on a freshly built instance.  Executor single-use (refuse, or run the complete selection) and the
    absence of any other carried state are tied by K-hist. *)
 From Coq Require Import List.
-From Tawazi Require Import Graph Sched SchedInv Dataflow DataflowFacts DenPre.
+From Tawazi Require Import Graph Sched SchedInv Dataflow DataflowFacts DenPre Args ArgsFacts.
 Import ListNotations.
 
 Section C15.
@@ -40,3 +40,26 @@ Proof. exact (den_precompute_failures val vnone truthy index tbl c1 c2 P res0 re
 End C15.
 Print Assumptions C15_den_precompute.
 Print Assumptions C15_den_precompute_failures.
+
+(* the k-th call depends only on its own arguments: the map handed to the scheduler is the DAG-level map with
+   the i-th argument overriding the i-th parameter, so two instances whose DAG-level maps differ only by setup
+   results (which hold what a run would compute, and which no argument can reach) give the same values *)
+Theorem C15_call_after_setup_same_as_fresh (val : Type) (vnone : val) (truthy : val -> bool) (index : val -> nat -> option val)
+    (tbl : nat -> nodeT val) (c1 c2 : cfg) (P : list nat)
+    (dag_res dag_res' : results val) (inputs : list nat) (args : list val) (r r' : results val) :
+  bind val dag_res inputs args = Some r -> bind val dag_res' inputs args = Some r' ->
+  (forall n, In n P -> ~ In n inputs) ->
+  (forall n, lookup val dag_res' n = if mem n P then den val vnone truthy index tbl c1 r n else lookup val dag_res n) ->
+  c_nodes c1 = c_nodes c2 ->
+  (forall n, In n (c_pre c2) <-> In n (c_pre c1) \/ In n P) ->
+  (forall p, In p P -> In p (c_nodes c1) /\ ~ In p (c_pre c1)) ->
+  wf c1 -> wf c2 -> consistent val tbl c1 r -> consistent val tbl c2 r' ->
+  forall n, den val vnone truthy index tbl c2 r' n = den val vnone truthy index tbl c1 r n.
+Proof. exact (call_after_setup_same_as_fresh val vnone truthy index tbl c1 c2 P dag_res dag_res' inputs args r r'). Qed.
+Print Assumptions C15_call_after_setup_same_as_fresh.
+
+(* an argument of an earlier call is not visible: the binding reads nothing but (DAG-level map, parameters, arguments) *)
+Theorem C15_binding_frame (val : Type) (inputs : list nat) (args : list val) (res r : results val) (n : nat) :
+  bind val res inputs args = Some r -> ~ In n (firstn (length args) inputs) -> lookup val r n = lookup val res n.
+Proof. exact (bind_lookup_other val inputs args res r n). Qed.
+Print Assumptions C15_binding_frame.
